@@ -347,6 +347,11 @@ func cmdCheck(args []string) int {
 			}
 		}
 	}
+	if o.only == "" {
+		if bc := runBounded(o, ev); bc == 1 {
+			code = 1
+		}
+	}
 	ev.WallS = time.Since(t0).Seconds()
 	if o.only == "" && os.Getenv("VERIF_NOEVIDENCE") == "" {
 		writeEvidence(o, ev)
@@ -1030,4 +1035,82 @@ func assumptions(sp *Specs, pk map[string]bool, prop string) []string {
 	out = append(out, "integers are mathematical in SMT; equality with the 64-bit machine result is proved at every + - * and conversion (safety obligations), except where listed above",
 		"float64 operations are uninterpreted", "the type parameter is an uninterpreted sort")
 	return out
+}
+
+// runBounded runs the bounded stand-ins registered for the property in
+// replay/templates/BOUNDED.txt: clauses no contract within reach decides (floating point,
+// relations between two calls) are checked on the real code for a stated, finite scope. They are
+// labelled bounded in the evidence and never counted among the discharged obligations.
+func runBounded(o *Options, ev *Evidence) int {
+	b, err := os.ReadFile(filepath.Join(o.verif, "replay", "templates", "BOUNDED.txt"))
+	if err != nil {
+		return 0
+	}
+	known := readKnown(filepath.Join(o.verif, "known_findings.txt"), o.prop)
+	code := 0
+	var list []interface{}
+	for _, l := range strings.Split(string(b), "\n") {
+		f := strings.Split(l, "\t")
+		if len(f) != 6 || strings.HasPrefix(l, "#") || f[0] != o.prop {
+			continue
+		}
+		tmpl, mod, rel, id, what := f[1], f[2], f[3], f[4], f[5]
+		tb, err := os.ReadFile(filepath.Join(o.verif, "replay", "templates", tmpl))
+		if err != nil {
+			fmt.Println("UNDECIDED bounded stand-in " + id + ": " + err.Error())
+			if code == 0 {
+				code = 2
+			}
+			continue
+		}
+		src := strings.NewReplacer("{{.Obligation}}", "bounded:"+id, "{{.Property}}", o.prop).Replace(string(tb))
+		modDir := o.repo
+		if mod == "v2" {
+			modDir = filepath.Join(o.repo, "v2")
+		}
+		t0 := time.Now()
+		out, failed := runOverlayTest(modDir, rel, []byte(src))
+		entry := map[string]interface{}{"id": id, "label": "bounded (not a proof)", "statement_and_bound": what, "template": tmpl, "seconds": time.Since(t0).Seconds()}
+		cases := 0
+		if m := regexp.MustCompile(`VERIFCASES (\d+)`).FindStringSubmatch(out); m != nil {
+			cases, _ = strconv.Atoi(m[1])
+		}
+		entry["cases"] = cases
+		switch {
+		case failed:
+			name := "bounded:" + id
+			if whatK, ok := known[name]; ok {
+				fmt.Printf("KNOWN-FINDING: property=%s %s (%s)\n", o.prop, whatK, name)
+				entry["result"] = "known finding"
+				break
+			}
+			entry["result"] = "failed"
+			dir := filepath.Join(o.verif, "replays")
+			_ = os.MkdirAll(dir, 0o755)
+			path := filepath.Join(dir, o.prop+"-bounded_"+sane(id)+".json")
+			rb, _ := json.MarshalIndent(map[string]interface{}{"property": o.prop, "obligation": name, "status": "failed (bounded check on the real code)",
+				"statement_and_bound": what, "go_test_output": clip(out, 4000), "test_source_template": tmpl,
+				"note": "a bounded stand-in found an input of the real code on which the statement fails"}, "", " ")
+			_ = os.WriteFile(path, append(rb, '\n'), 0o644)
+			fmt.Printf("VIOLATION property=%s replay=%s\n", o.prop, path)
+			ev.Violations++
+			code = 1
+		case strings.Contains(out, "ok  ") && cases > 0:
+			entry["result"] = "held on every case of the scope"
+		default:
+			entry["result"] = "not run: " + clip(out, 300)
+			fmt.Println("UNDECIDED bounded stand-in " + id + " did not run: " + clip(out, 300))
+			if code == 0 {
+				code = 2
+			}
+		}
+		list = append(list, entry)
+	}
+	if len(list) > 0 {
+		ev.Coverage["bounded_stand_ins"] = list
+		if code == 0 {
+			fmt.Printf("OK property=%s bounded stand-ins=%d (labelled bounded, not counted as proved)\n", o.prop, len(list))
+		}
+	}
+	return code
 }
